@@ -42,8 +42,9 @@ TRANSLATION TABLE (Python → Lean)
                                         afterwards;  otherwise: if c then (A; rest) else (B; rest)
   for p in it: body; rest               let (v1,..,vn) := List.foldl (fun (v1,..,vn) p => body; (v1,..,vn)) (v1,..,vn) it; rest
                                         v1..vn = variables assigned in body that exist before the loop; `continue` = the
-                                        state tuple; no return/raise/break inside loops; the loop variable and the
-                                        body's locals are not visible after the loop
+                                        state tuple; the loop variable and the body's locals are not visible after the loop.
+                                        With return / raise / break inside: an auxiliary definition, structurally recursive on
+                                        the list: F vars [] = rest;  F vars (p :: todo) = body; F vars' todo
   return e                              e                (`.ok e` if the function can raise)
   raise X(...)                          .error Py.Err.<X>   result type `Except Py.Err τ`; with effects / state the result
                                         is (value-or-error, effects, state…): what was done before a raise stays done
@@ -65,7 +66,7 @@ TRANSLATION TABLE (Python → Lean)
   obj.PROP (registry props)             (PROP obj): call of the translated property getter;  len(obj) → (len_ obj) if `__len__` is translated
   record given as `extern`              the hand-written model's structure; attributes map to its fields as the registry says
 NOT in the subset: floats, strings (except in `raise`), dict values, sets, slices, list indexing, nested defs, lambda,
-try/with, while without fuel, break in for, return inside for, *args/**kwargs, walrus, global state, division by 0.
+try/with, while without fuel, *args/**kwargs, walrus, global state, division by 0.
 """
 from __future__ import annotations
 
@@ -811,11 +812,44 @@ class Translator:
             self.aux[idx] = head + [f"    if {c} then ("] + _ind(body, 6) + ["    ) else ("] + _ind(rest, 6) + ["    )"]
         return again(env)
 
+    def s_ForRec(self, s, env, k):
+        """a `for` with return / raise / break inside → an auxiliary definition, structurally recursive on the list:
+             NAME vars [] = rest        NAME vars (p :: todo) = body; NAME vars' todo
+           (`continue` / end of body = the recursive call, `break` = rest, `return` / `raise` leave the function)"""
+        it, ity = self.iterable(s.iter, env)
+        if not ity or ity[0] != "L" or not self.closed(ity):
+            self.bad(s.iter, f"iteration over a value of type {ity}")
+        names = [x for x in env if not x.startswith("#")]
+        if "todo_" in names:
+            self.bad(s, "a variable named todo_")
+        for x in names:
+            if not self.closed(env[x]):
+                self.bad(s, f"type of `{x}` unknown at the for loop")
+        name = f"{self.fn.name}.for{len(self.aux) + 1}"
+
+        def again(e):
+            return [" ".join([name, *[self.v(x) for x in names], "todo_"])]
+        self.aux.append(None)
+        idx = len(self.aux) - 1
+        benv = dict(env)
+        pat = self.pattern(s.target, ity[1], benv)
+        self.loops.append(again)
+        self.breaks.append(lambda e: k({x: t for x, t in e.items() if x in env}))
+        body = self.block(s.body, benv, again)
+        self.loops.pop()
+        self.breaks.pop()
+        rest = k(dict(env))
+        binders = " ".join(f"({self.v(x)} : {lean_ty(env[x])})" for x in names)
+        self.aux[idx] = [f"@[simp] def {name} {binders} : {lean_ty(ity)} → ⟪RET⟫", "  | [] => ("] + _ind(rest, 4) + ["    )",
+                         f"  | {pat} :: todo_ => ("] + _ind(body, 4) + ["    )"]
+        return [" ".join([name, *[self.v(x) for x in names], it])]
+
     def s_For(self, s, env, k):
         if s.orelse:
             self.bad(s, "for/else")
-        if self.escapes(s.body, loop=True):
-            self.bad(s, "return / raise inside a for loop")
+        if self.escapes(s.body, loop=True) or any(isinstance(n, ast.Break) for n in ast.walk(
+                ast.Module(body=[x for x in s.body if not isinstance(x, (ast.While, ast.For))], type_ignores=[]))):
+            return self.s_ForRec(s, env, k)
         if any(isinstance(n, ast.Break) for n in ast.walk(ast.Module(body=[x for x in s.body if not isinstance(x, ast.While)],
                                                                       type_ignores=[]))):
             self.bad(s, "break inside a for loop")
